@@ -48,7 +48,7 @@ def invLoop (zero : Bool) (numOnes q : Nat) :
     let i := gi % SB_WORDS
     let beg := if i = 0 then beg.push inv.size else beg
     let word := if zero then notW 64 w else w
-    let onesInWord := min (popc word) (numOnes - past)
+    let onesInWord := min (pc64 word) (numOnes - past)
     (invWhile q i word past onesInWord 65 inv nq) >>= fun (inv', nq') =>
       invLoop zero numOnes q rest (gi + 1) inv' beg (past + onesInWord) nq'
 
